@@ -766,6 +766,33 @@ class Interp:
                 self.lose(f"{fi.name}() updates in place the array it is given as `{ast.unparse(e)[:40]}` (a view or an element): "
                           f"the owner of that memory is not followed", call)
 
+    def _scopes(self, env):
+        seen, out = set(), []
+        for d in [env] + [fr.env for fr in self.frames] + [fr.parent_env for fr in self.frames if fr.parent_env is not None]:
+            if d is not None and id(d) not in seen:
+                seen.add(id(d))
+                out.append(d)
+        return out
+
+    def _aliases(self, obj, env, name):
+        """(holder, key) of every other binding of this very object: names of the scopes in sight, attributes of objects and
+        items of lists / dicts held by those names (one level)"""
+        out = []
+        for d in self._scopes(env):
+            for k, v in list(d.items()):
+                if v is obj and not (d is env and k == name):
+                    out.append((d, k))
+                elif isinstance(v, ObjV):
+                    out.extend((v.attrs, a) for a, w in v.attrs.items() if w is obj)
+                elif type(v) is Seq:
+                    out.extend((v.items, i) for i, w in enumerate(v.items) if w is obj)
+                elif isinstance(v, DictV):
+                    out.extend((v.d, a) for a, w in v.d.items() if w is obj)
+        return out
+
+    def _referenced(self, obj, env, name) -> bool:
+        return bool(self._aliases(obj, env, name))
+
     def _oneshot(self, fi: FunctionInfo):
         cache = self.__dict__.setdefault("_oneshot_cache", {})
         if fi.qualname not in cache:
@@ -1035,11 +1062,26 @@ class Interp:
         if isinstance(st, ast.AugAssign):
             cur = self.eval(_load(st.target), env)
             rhs = self.eval(st.value, env)
+            if type(cur) is Seq and cur.kind == "list" and isinstance(st.op, ast.Add) and type(rhs) is Seq \
+                    and not hasattr(cur, "appended"):
+                # `xs += [..]` on a list is xs.extend(..): the list object itself grows, every alias sees it
+                cur.items.extend(rhs.items)
+                return env
             try:
                 v = self.binary(st.op, cur, rhs, st)
             except ShapeError as ex:
                 self.event("shape-error", st, message=str(ex))
                 v = self.unknown("shape-error", st)
+            if isinstance(cur, Arr) and cur.kind == "nd" and isinstance(st.target, ast.Name):
+                # an in-place operator on an ndarray changes the array object: other names bound to it change with it
+                if getattr(cur, "view_of", None) is not None and self._referenced(cur.view_of, env, None):
+                    self.lose(f"`{st.target.id}` is a view of another array that is still in use and is updated in place: the "
+                              f"other array changes too", st)
+                others = self._aliases(cur, env, st.target.id)
+                if others and getattr(self, "active_loops", None):
+                    self.lose(f"`{st.target.id}` is updated in place inside a loop while other names refer to the same array", st)
+                for holder, key in others:
+                    holder[key] = v
             self.assign(st.target, v, env, st, aug=True)
             return env
         if isinstance(st, ast.Return):
@@ -1983,6 +2025,9 @@ class Interp:
 
     def store_subscript(self, target: ast.Subscript, base: Val, v: Val, env: dict, st):
         idx = self.index_items(target.slice, env)
+        if isinstance(base, Arr) and getattr(base, "view_of", None) is not None and self._referenced(base.view_of, env, None):
+            self.lose("a store through a view (a slice / row / transpose) of an array that is still in use: the array it was "
+                      "taken from changes too, which is not followed", st)
         self.event("store", st, base=base, idx=idx, value=v, target=target)
         name = target.value.id if isinstance(target.value, ast.Name) else None
         holder = None
@@ -2899,17 +2944,21 @@ class Interp:
         c = self.p.classes.get(cls)
         if c is None or depth > 4:
             return None
+        cache = self.__dict__.setdefault("_class_attr_cache", {})
         for k in c.mro(self.p):
             e = k.class_attrs.get(attr)
             if e is None:
                 continue
+            if (k.qualname, attr) in cache:
+                return cache[(k.qualname, attr)]   # the class holds ONE object: every instance sees what another one appended
             env = {}
             for n in ast.walk(e):
                 if isinstance(n, ast.Name) and n.id in k.class_attrs and n.id != attr and n.id not in env:
                     v = self._class_attr(k.qualname, n.id, depth + 1)
                     if v is not None:
                         env[n.id] = v
-            return self.eval(e, env)
+            cache[(k.qualname, attr)] = self.eval(e, env)
+            return cache[(k.qualname, attr)]
         return None
 
     def subscript(self, base: Val, idx: list, node) -> Val:
@@ -2979,6 +3028,10 @@ class Interp:
         r = arrays.index(base, idx, self)
         if isinstance(r, Unknown):
             self.unmodelled.append(dict(tag=r.tag, node=node, fi=self.frames[-1].fi if self.frames else None, uid=r.e[3]))
+        elif isinstance(r, Arr) and r is not base and isinstance(base, Arr) and base.kind == "nd" \
+                and all(it[0] in ("slice", "full", "int", "new", "ellipsis", "expr") for it in idx):
+            # basic indexing of an ndarray gives a view: a store through it would change the array it was taken from
+            r.view_of = getattr(base, "view_of", None) or base
         return r
 
     def _keymap_lookup(self, km, key: Expr) -> Optional[Expr]:
